@@ -10,7 +10,7 @@
 (* (finalise returned), done / done_again, kill, signal.                   *)
 (* The variables follow the logged state; P-clauses are evaluated on it.   *)
 (***************************************************************************)
-EXTENDS ImportanceSampler, IOUtils, Json
+EXTENDS ImportanceSampler, IOUtils, Json, ScheduleOps
 
 J   == JsonDeserialize(IOEnv.TRACE_FILE)
 Ev  == J.ev
@@ -123,6 +123,16 @@ EvCkpt(e) ==
     /\ M("ckpt: not at an iteration boundary", e.it = s.it /\ e.nprop = s.nprop)
     /\ UNCHANGED <<s, levels, aux>>
 
+\* every call of checkpoint(periodic, force): the schedule of Schedule.tla
+EvCkptCall(e) ==
+    LET due == Due(e.cur, e.last0, e.interval) IN
+    /\ M("schedule: a file is written iff the call is a signal's, forced, or due (ScheduleOps.Writes)",
+         e.near \/ e.wrote = Writes(e.periodic, e.force, due))
+    /\ M("schedule: _last_checkpoint after the call is not ScheduleOps.LastAfter",
+         e.near \/ e.last1 = LastAfter(e.periodic, e.force, due, e.cur, e.last0))
+    /\ M("schedule: _last_checkpoint lies in the future", e.last0 <= e.cur)
+    /\ UNCHANGED <<s, disk, levels, aux>>
+
 EvResume(e) ==
     /\ P("C12", "resumed_from_a_checkpoint", disk # <<>>)
     /\ IF disk # <<>>
@@ -132,6 +142,7 @@ EvResume(e) ==
             /\ P("C12", "restored_stores", StoreOf(e.tr) = disk[1].tr /\ (Iid => StoreOf(e.iid) = disk[1].iid))
             /\ P("C12", "restored_evaluations", e.evals = disk[1].evals)
             /\ P("C12", "restored_digest:" \o e.digest_diff, e.digest_ok)
+            /\ M("schedule: restored _last_checkpoint is not the pickled one", e.sched_ok)
        ELSE s' = s
     \* the re-derived density tables (float32) and everything else of C03
     /\ StoreClauses(e.tr, e, "training set after resume")
@@ -187,6 +198,7 @@ TraceStep ==
            [] e.ev = "ins_init"   -> EvInit(e)
            [] e.ev = "ins_iter"   -> EvIter(e)
            [] e.ev = "ckpt"       -> EvCkpt(e)
+           [] e.ev = "ckpt_call"  -> EvCkptCall(e)
            [] e.ev = "resume"     -> EvResume(e)
            [] e.ev = "ins_final"  -> EvFinal(e)
            [] e.ev = "done"       -> EvDone(e)
